@@ -431,6 +431,60 @@ def cap_arg_rule(rep, u, fn, cap=4):
     return n
 
 
+def overwrite_rule(rep, u):
+    """R-OVERWRITE: bn_import_* replace the value of their destination: the result may not depend on what the object held
+    before ("not on stale storage above their significant digits").  The length helper bn_update_digits__int(bn, k) is
+    written for arithmetic results: evaluated with an old length above k and non-zero digits up there it *keeps* the old
+    length (those digits belong to the number).  An importer that writes k digits and then calls it - without first
+    lowering bn->digits - therefore keeps the previous value's high digits whenever that value was longer."""
+    from rules import r_stride
+    fh = u.fn("bn_update_digits__int")
+    if fh is None:
+        raise driver.AnalysisBroken("anchor bn_update_digits__int vanished")
+    BN, NUM = 0x1000, 0x2000
+    keeps = None
+    for old, k in ((5, 1), (5, 3), (2, 1)):
+        pe = r_stride.PE(u, call_default={})
+        for j in range(0, 8 * 16):
+            pe.memory[NUM + j] = 1
+        # the callee that recounts: evaluated through its own body (reads the digits just bound)
+        ev, ret = pe.trace(fh, {"bn": BN, "bn->count": 8, "bn->digits": old, "bn->num": NUM, "digits": k})
+        if isinstance(ret, str):
+            keeps = None
+            break
+        final = None
+        for e, b in ev:
+            for x, _ in walk(e):
+                if x.get("k") == "bin" and x["op"] == "=" and key(core.strip_casts(x["x"])) == "bn->digits":
+                    vs = pe.evals(x["y"], b, 0)
+                    final = vs[0][0] if len(vs) == 1 else None
+        if final is None:
+            keeps = None
+            break
+        keeps = (keeps if keeps is not None else True) and final > k
+    n = 0
+    for fn in u.function_list:
+        if fn.relfile() != BN_H or not fn.has_cfg or not fn.name.startswith("bn_import_"):
+            continue
+        calls = [(pos, c) for pos, root, c, ps in fn.calls({"bn_update_digits__int"})]
+        for pos, c in calls:
+            n += 1
+            rep.functions.add(fn.name)
+            lowered = any(x.get("k") == "bin" and x["op"] == "=" and key(core.strip_casts(x["x"])).endswith("->digits") and fn.pos_dominates(p2, pos)
+                          for p2, r2, x, _ in fn.nodes())
+            inst = "length-after-import#%d" % n
+            desc = "%s: the length of the imported number does not depend on the digits the destination held before" % fn.name
+            if keeps is None:
+                rep.undecided("R-OVERWRITE", fn, inst, desc, "bn_update_digits__int could not be evaluated", c.get("ln"))
+            elif keeps and not lowered:
+                rep.violated("R-OVERWRITE", fn, inst, desc, "bn_update_digits__int(bn, k) keeps a previous length above k when the digits up there are "
+                             "non-zero, and nothing lowers bn->digits before the call: importing a short value into a number that held a longer "
+                             "one leaves the old high digits in the result", c.get("ln"))
+            else:
+                rep.proved("R-OVERWRITE", fn, inst, desc, "", c.get("ln"))
+    return n
+
+
 def norm_rule(rep, fn):
     """R-NORM: `digits` is the exact number of significant digits - bn_is_zero, bn_cmp and bn_calc_bits read it as such and
     every arithmetic routine re-derives it with bn_digits_calc_digits.  A store to X->digits through a bn_p parameter is
@@ -551,6 +605,7 @@ def run(rep, tier):
     rep.floor("bit/byte dimensioned expressions", n_dim, 20)
     rep.floor("per-iteration temporaries read in loops", n_fresh, 3)
     rep.floor("stores to ->digits", n_norm, 8)
+    rep.floor("importers that set the length", overwrite_rule(rep, us[cs[0][0]]), 2)
     from props import c03
     c03.reduce_rule(rep, us[cs[0][0]])            # modular reduction: only a value strictly below the modulus is left alone
     rep.floor("destination (num, count) arguments", n_cap, 12)
